@@ -342,19 +342,6 @@ impl Generator for FieldSortingGenerator<'_> {
             #(let mut #visited_flag_names = false;)*
         });
 
-        // An iterator over names of Rust fields that can't be ignored
-        // (i.e., if UDT misses a corresponding field, an error should be raised).
-        let nonignorable_rust_field_names = self
-            .ctx
-            .fields
-            .iter()
-            .filter(|f| !f.attrs.ignore_missing)
-            .map(|f| &f.ident);
-        // An iterator over visited flags of Rust fields that can't be ignored
-        // (i.e., if UDT misses a corresponding field, an error should be raised).
-        let nonignorable_visited_flag_names =
-            nonignorable_rust_field_names.map(make_visited_flag_ident);
-
         // Generate a variable that counts down visited fields.
         let field_count = self.ctx.fields.len();
         statements.push(parse_quote! {
@@ -413,7 +400,7 @@ impl Generator for FieldSortingGenerator<'_> {
         statements.push(parse_quote! {
             if remaining_count > 0 {
                 #(
-                    if !#nonignorable_visited_flag_names && !#rust_field_ignore_missing_flags {
+                    if !#visited_flag_names && !#rust_field_ignore_missing_flags {
                         return ::std::result::Result::Err(mk_typck_err(
                             #crate_path::UdtTypeCheckErrorKind::ValueMissingForUdtField {
                                 field_name: <_ as ::std::string::ToString>::to_string(#rust_field_names),
